@@ -1,5 +1,6 @@
 mod c14;
 mod hl;
+mod routes;
 mod rt;
 
 use vmodel::Tier;
